@@ -1,0 +1,12 @@
+//go:build verif
+
+// Contracts for package util, read by /verif/govc (contract-based deductive verification).
+// This file contains comments only; it adds no code to any build.
+
+package util
+
+//@ func ByteIsAny [C15]
+//@   pure
+//@   ensures result <==> exists i int :: 0 <= i && i < len(l) && l[i] == b
+//@   loop 1 invariant -1 <= rangeindex && rangeindex < len(l)
+//@   loop 1 invariant forall j int :: 0 <= j && j <= rangeindex ==> l[j] != b
